@@ -334,9 +334,12 @@ def r5(run, db):
         okc = len(av) == 1 and len(cs) == 1 and all(r["k"] == "call" and r["call"].bb == av[0].bb for r in ret) and not g.switches()
         run.check(okc, "is_drained|predicate", "the per-worker predicate is exactly is_available() (no worker is exempt, e.g. one that is retiring after a shrink)",
                   "the per-worker predicate of is_drained is not plain is_available(): some busy workers are skipped, the factory can stop while they hold queued jobs", g.where())
-    ql = [t for t in cmp_tests(idr) if t["op"] == "Eq" and t["b"] == ("c", 0) and t["a"][0] == "call" and t["a"][1].name.endswith("::len")]
+    from .bits import zero_edges
+    ql = zero_edges(idr, lambda x: x[0] == "call" and x[1].name.endswith("::len"))
+    is_empty = [c for c in idr.calls() if c.matches(r"::is_empty$") and true_edge(idr, c)]
+    ql += [true_edge(idr, c) for c in is_empty]
     stores = [site for site, s in idr.stmts() if s["k"] == "assign" and fields(db).fs_drain_state in [proj_field_name(e) for e in s["lhs"][1] if e.startswith("f:")]]
-    run.check(len(ql) == 1 and stores and ql[0]["true_edge"] and idr.edge_dominates(ql[0]["true_edge"], stores[0]), "is_drained|queue-empty", "Drained is stored only when the factory queue is empty", "Drained does not require an empty queue", idr.where())
+    run.check(len(ql) >= 1 and stores and any(idr.edge_dominates(e_, stores[0]) for e_ in ql), "is_drained|queue-empty", "Drained is stored only when the factory queue is empty", "Drained does not require an empty queue", idr.where())
     # stop only when drained
     hd = [f for f in db.crate_fns("ractor") if re.search(r"factoryimpl::Factory<.*Actor>::handle::\{closure#0\}$", f.id)]
     for f in hd:
